@@ -1,7 +1,7 @@
 (* C08 — line round trips: what the spec's reader makes of the lines the model writes. *)
 From Coq Require Import List NArith Bool Lia String.
 Import ListNotations.
-Require Import MV.C08.Model MV.C08.Spec MV.C08.ProofsSan MV.C08.ProofsEsc.
+Require Import MV.C08.Model MV.C08.Spec MV.C08.Exec MV.C08.ProofsSan MV.C08.ProofsEsc.
 Open Scope N_scope.
 Open Scope list_scope.
 
@@ -32,8 +32,10 @@ Proof.
     cbn [rev]. now rewrite <- app_assoc.
 Qed.
 
+Ltac norm := repeat (rewrite <- app_assoc || rewrite <- app_comm_cons); cbn [app].
+
 Lemma read_one nm o done tl : lname nm -> toks false o ->
-  read_labels LStart done (nm ++ [61; 34] ++ o ++ 34 :: tl)
+  read_labels LStart done (nm ++ 61 :: 34 :: o ++ 34 :: tl)
   = read_labels LAfter ((nm, dec false o) :: done) tl.
 Proof.
   intros (c & r & -> & Hc & Hr) Ho.
@@ -53,22 +55,21 @@ Proof. intros H. destruct (label_key_shape k H) as (c & r & E & ? & ?). now exis
 Lemma read_label_string kv done tl : fst kv <> [] ->
   read_labels LStart done (label_string kv ++ tl) = read_labels LAfter (dl kv :: done) tl.
 Proof.
-  intros H. unfold label_string. repeat rewrite <- app_assoc.
-  change ([34] ++ tl) with (34 :: tl).
+  intros H. unfold label_string. norm.
   rewrite read_one; [reflexivity|now apply lname_key|apply esc_toks].
 Qed.
 
 Lemma read_label_list kvs : forall kv done tl, keys_ok (kv :: kvs) ->
-  read_labels LStart done (join_comma (map label_string (kv :: kvs)) ++ tl)
+  read_labels LStart done (join_comma (label_string kv :: map label_string kvs) ++ tl)
   = read_labels LAfter (rev (map dl (kv :: kvs)) ++ done) tl.
 Proof.
   induction kvs as [|kv2 kvs IH]; intros kv done tl H.
   - inversion H; subst. cbn [map join_comma rev app]. now apply read_label_string.
   - inversion H; subst.
-    change (join_comma (map label_string (kv :: kv2 :: kvs)))
-      with (label_string kv ++ [44] ++ join_comma (map label_string (kv2 :: kvs))).
-    repeat rewrite <- app_assoc. rewrite read_label_string by auto.
-    cbn [app read_labels N.eqb Pos.eqb]. rewrite IH by auto.
+    change (join_comma (label_string kv :: map label_string (kv2 :: kvs)))
+      with (label_string kv ++ [44] ++ join_comma (label_string kv2 :: map label_string kvs)).
+    rewrite <- app_assoc. rewrite read_label_string by auto.
+    rewrite <- app_assoc. cbn [app read_labels N.eqb Pos.eqb]. rewrite IH by auto.
     cbn [map rev]. now repeat rewrite <- app_assoc.
 Qed.
 
@@ -86,20 +87,19 @@ Proof.
   - destruct a as [[n v]|]; [right|left; auto].
     destruct Ha as [Hn Hv]. destruct (plain_toks v Hv) as [Ht Hd].
     eexists. split; [reflexivity|].
-    cbn [map join_comma is_nil app]. repeat rewrite <- app_assoc.
-    change ([34] ++ [125] ++ rest) with (34 :: 125 :: rest).
+    cbn [map join_comma is_nil]. norm.
     rewrite read_one by auto. cbn. now rewrite Hd.
   - right. destruct a as [[n v]|].
     + destruct Ha as [Hn Hv]. destruct (plain_toks v Hv) as [Ht Hd].
       eexists. split; [unfold label_block; cbn [map is_nil negb orb app]; reflexivity|].
-      repeat rewrite <- app_assoc. rewrite read_label_list by auto.
-      cbn [app read_labels N.eqb Pos.eqb].
-      change ([34] ++ [125] ++ rest) with (34 :: 125 :: rest).
+      rewrite <- app_assoc. rewrite read_label_list by auto.
+      norm. cbn [read_labels N.eqb Pos.eqb].
       rewrite read_one by auto. cbn [read_labels N.eqb Pos.eqb].
-      rewrite Hd. cbn [rev]. rewrite app_nil_r. cbn [addl_pairs].
-      rewrite rev_app_distr, rev_involutive. reflexivity.
+      rewrite Hd. cbn [addl_pairs]. rewrite app_nil_r.
+      change ((n, v) :: rev (map dl (kv :: kvs))) with (rev (rev [(n, v)]) ++ rev (map dl (kv :: kvs))).
+      now rewrite <- rev_app_distr, rev_involutive.
     + eexists. split; [unfold label_block; cbn [map is_nil negb orb app]; reflexivity|].
-      repeat rewrite <- app_assoc. rewrite read_label_list by auto.
+      rewrite <- app_assoc. rewrite read_label_list by auto.
       cbn [app read_labels N.eqb Pos.eqb]. rewrite app_nil_r, rev_involutive. cbn [addl_pairs].
       now rewrite app_nil_r.
 Qed.
@@ -177,10 +177,10 @@ Proof.
   intros Hn Hs Hk Ha Hv.
   assert (Hfull : mname (full_name fx name sfx unit)) by now apply full_name_mname.
   assert (E : metric_line_body fx name sfx (map label_string kvs) a value unit
-              = full_name fx name sfx unit ++ label_block (map label_string kvs) a ++ [32] ++ value).
+              = full_name fx name sfx unit ++ label_block (map label_string kvs) a ++ 32 :: value).
   { unfold metric_line_body, full_name. now repeat rewrite <- app_assoc. }
   rewrite E, parse_line_sample by auto.
-  destruct (read_block kvs a ([32] ++ value) Hk Ha) as [(-> & -> & Hb)|(body & Hb & Hr)].
+  destruct (read_block kvs a (32 :: value) Hk Ha) as [(-> & -> & Hb)|(body & Hb & Hr)].
   - rewrite Hb. cbn [app]. rewrite parse_sample_shape by (auto; reflexivity).
     now rewrite Hv.
   - rewrite Hb. cbn [app]. rewrite parse_sample_shape by (auto; reflexivity).
@@ -196,19 +196,23 @@ Theorem help_line_roundtrip nm desc : mname nm ->
   = Some (LHelp nm (dec false (sanitize_description desc))).
 Proof.
   intros H. destruct (mname_ok nm H) as [Hok _].
-  cbn [lit app parse_line N_of_ascii N.eqb Pos.eqb negb strip_prefix chars].
-  cbn [app]. rewrite span_name by auto. rewrite Hok. cbn [negb].
+  change (lit "# HELP ") with [35; 32; 72; 69; 76; 80; 32].
+  cbn [app]. unfold parse_line.
+  change (chars "# HELP ") with [35; 32; 72; 69; 76; 80; 32].
+  cbn [N.eqb Pos.eqb negb strip_prefix].
+  rewrite span_name by auto. rewrite Hok. cbn [negb].
   unfold sanitize_description. now rewrite read_doc_toks by apply esc_toks.
 Qed.
-
-Definition kind_mtype (k : kind) : mtype :=
-  match k with KCounter => TCounter | KGauge => TGauge | KSummary => TSummary | KHistogram => THistogram end.
 
 Theorem type_line_roundtrip nm k : mname nm ->
   parse_line (lit "# TYPE " ++ nm ++ [32] ++ type_word k) = Some (LType nm (kind_mtype k)).
 Proof.
   intros H. destruct (mname_ok nm H) as [Hok _].
-  cbn [lit app parse_line N_of_ascii N.eqb Pos.eqb negb strip_prefix chars].
-  cbn [app]. rewrite span_name by auto. rewrite Hok. cbn [negb].
+  change (lit "# TYPE ") with [35; 32; 84; 89; 80; 69; 32].
+  cbn [app]. unfold parse_line.
+  change (chars "# HELP ") with [35; 32; 72; 69; 76; 80; 32].
+  change (chars "# TYPE ") with [35; 32; 84; 89; 80; 69; 32].
+  cbn [N.eqb Pos.eqb negb strip_prefix].
+  rewrite span_name by auto. rewrite Hok. cbn [negb].
   destruct k; reflexivity.
 Qed.
